@@ -134,7 +134,7 @@ def run_cases(work, cases, stats, notation=0, tag="b"):
             part = idxs[s:s + BATCH]
             rows = [B.call_src(names[B.decl_key(cases[i]["d"])], cases[i]["c"]) for i in part]
             text, first, probes = B.program(rows)
-            jobs.append({"cfg": cfg, "cfgkey": cfgkey, "files": {"t.rb": text}, "args": ["t.rb"], "trace": True})
+            jobs.append({"cfg": cfg, "cfgkey": cfgkey, "files": {"t.rb": text}, "args": ["t.rb"], "trace": True, "timeout": 120})
             meta.append((part, first, probes, g))
     wr = C.Runner(work, "worker")
     try:
@@ -298,7 +298,7 @@ def check_kw_order(v, work, stats, cases, names, obs, checked):
     cfg = obs[0]["job"]["cfg"] if obs else None
     for s in range(0, len(rows), BATCH):
         text, first, probes = B.program(rows[s:s + BATCH])
-        jobs.append({"cfg": cfg, "cfgkey": obs[0]["job"]["cfgkey"], "files": {"t.rb": text}, "args": ["t.rb"]})
+        jobs.append({"cfg": cfg, "cfgkey": obs[0]["job"]["cfgkey"], "files": {"t.rb": text}, "args": ["t.rb"], "timeout": 120})
         meta.append((s, first))
     wr = C.Runner(work, "worker")
     try:
